@@ -16,3 +16,11 @@ package percolator
 //@   tag decoder
 //@   alloc data
 //@   ensures [total] true
+
+// C19: a lock expires exactly when currentTs >= Ts + TTL in mathematical integers
+// (TTL == 0 never expires); no wrap-around.
+//@ func isLockExpired
+//@   property C19
+//@   ensures [math] lock != nil ==> (result <==> (lock.TTL != 0 && math(currentTs) >= math(lock.Ts) + math(lock.TTL)))
+//@   ensures [nil-lock] lock == nil ==> !result
+//@   modifies nothing
